@@ -27,18 +27,45 @@ BLIND_SPOTS = ["a wrong dtype of the index arrays", "value-dependent errors insi
 COO = "cardillo/utility/coo_matrix.py"
 
 
+HELPERS = {}   # method name -> FunctionDef of a CooMatrix helper that appends triplets (filled by run)
+
+
+def _bound_arg(call, which):
+    """the expression that ends up in self.<which>.extend(...): the argument itself, or - for a helper call - the actual argument bound to the
+    helper's parameter that the helper appends to <which>"""
+    f = call.func
+    if isinstance(f, ast.Attribute) and dotted(f.value) == "self" and f.attr in HELPERS:
+        h = HELPERS[f.attr]
+        params = [a.arg for a in h.args.args[1:]]
+        for w in ast.walk(h):
+            if isinstance(w, ast.Call) and isinstance(w.func, ast.Attribute) and w.func.attr in ("extend", "fromlist", "append", "frombytes") and dotted(w.func.value) == f"self.{which}" and w.args:
+                b = w.args[0]
+                while isinstance(b, (ast.Subscript, ast.Call)):
+                    b = b.value if isinstance(b, ast.Subscript) else (b.func.value if isinstance(b.func, ast.Attribute) else (b.args[0] if b.args else b.func))
+                if isinstance(b, ast.Name) and b.id in params and params.index(b.id) < len(call.args):
+                    return call.args[params.index(b.id)]
+        return None
+    return call.args[0] if call.args else None
+
+
 def _ext(node, which):
-    """True if stmt node is `self.<which>.extend(...)`."""
+    """the call if stmt node is `self.<which>.extend(...)`, or a call of a helper method of the container that extends `which` exactly once"""
     s = node.ast
     if node.kind != "stmt" or not isinstance(s, ast.Expr) or not isinstance(s.value, ast.Call):
         return None
     f = s.value.func
     if isinstance(f, ast.Attribute) and f.attr in ("extend", "fromlist", "append", "frombytes") and dotted(f.value) == f"self.{which}":
         return s.value
+    if isinstance(f, ast.Attribute) and dotted(f.value) == "self" and f.attr in HELPERS:
+        h = HELPERS[f.attr]
+        k = sum(1 for w in ast.walk(h) if isinstance(w, ast.Call) and isinstance(w.func, ast.Attribute) and w.func.attr in ("extend", "fromlist", "append", "frombytes")
+                and dotted(w.func.value) == f"self.{which}")
+        if k == 1:
+            return s.value
     return None
 
 
-def r7_conversions(ctx):
+def r7_conversions(ctx, rule="C15.R7"):
     """Accumulation of duplicates happens in scipy's constructors ((data, (row, col)) triplets are summed on conversion).
     Every to<format> method must therefore derive its result from self.tosparse / another to* method; a dense array filled by
     fancy indexing `A[row, col] += data` keeps only the last duplicate (numpy buffers fancy-index updates)."""
@@ -69,10 +96,10 @@ def r7_conversions(ctx):
             if not ok:
                 bad = r
         if bad is not None:
-            rep.bad("C15.R7", C, bad, f"`{name}` does not build its result from the (data, (row, col)) triplets through a scipy sparse constructor / another to* conversion: "
+            rep.bad(rule, C, bad, f"`{name}` does not build its result from the (data, (row, col)) triplets through a scipy sparse constructor / another to* conversion: "
                     f"duplicates are only summed there", f"{COO}:{bad.lineno}")
         elif rets:
-            rep.ok("C15.R7", C, f"{norm_src(rets[0])[:100]}")
+            rep.ok(rule, C, f"{norm_src(rets[0])[:100]}")
     # numpy pitfall: fancy-index augmented assignment with the triplet index arrays does not accumulate duplicates
     n = 0
     for fname, fn in sorted(cls.methods.items()):
@@ -81,7 +108,7 @@ def r7_conversions(ctx):
                 idx = norm_src(a.target.slice)
                 if any(t.split(".")[-1] in idx for t in ("self.row", "self.col")) or "__row" in idx or "__col" in idx:
                     n += 1
-                    rep.bad("C15.R7", f"{COO}:CooMatrix.{fname}", a, "augmented assignment through the (row, col) index arrays: numpy applies a fancy-index `+=` once per distinct "
+                    rep.bad(rule, f"{COO}:CooMatrix.{fname}", a, "augmented assignment through the (row, col) index arrays: numpy applies a fancy-index `+=` once per distinct "
                             "index, so contributions that hit the same entry are lost instead of summed (np.add.at or a sparse constructor is required)", f"{COO}:{a.lineno}")
 
 
@@ -134,13 +161,67 @@ def r8_raw_appends(ctx):
                     rep.bad("C15.R8", C, w, f"`{norm_src(w)[:80]}` appends raw bytes to the '{codes[tgt]}' storage without casting the source to that type: a block whose dtype is not "
                             f"{'float64' if codes[tgt] == 'd' else 'uint32'} (an integer-valued or float32 scipy sparse array) is reinterpreted bit-wise (1 -> 5e-324) or rejected "
                             "although the write is consistent", f"{COO}:{w.lineno}")
-    if n < 6:
-        raise AnalysisError(f"{COO}: fewer than 6 appends to the typed storage arrays found")
+    if n < 3:
+        raise AnalysisError(f"{COO}: fewer than 3 appends to the typed storage arrays found")
     rep.ok("C15.R8", f"{COO}:CooMatrix", f"{n} appends to the typed storage arrays; all converting (extend / append / fromlist) or cast before a raw append")
+
+
+def r9_unfiltered(ctx):
+    """The container accumulates EXACTLY what was written: every entry of a block reaches the triplets, whatever its value.  A mask computed
+    from the values (`abs(data) > 0`, `data != 0`, np.nonzero, isclose) that selects what is appended changes the accumulated matrix for
+    values the comparison does not order - nan is "not > 0", so a written nan disappears and the conversions return a finite number where the
+    dense sum of the written blocks is nan (and -0.0 / denormals follow the same path)."""
+    rep = ctx.rep
+    cls = ctx.model.cls("CooMatrix", COO)
+    n = 0
+    for fname, fn in cls.methods.items():
+        appends = [w for w in ast.walk(fn) if isinstance(w, ast.Call) and isinstance(w.func, ast.Attribute) and w.func.attr in ("extend", "append", "fromlist", "frombytes")
+                   and (dotted(w.func.value) or "").split(".")[-1].lstrip("_") in ("data", "row", "col")]
+        if not appends:
+            continue
+        local = {}
+        for x in ast.walk(fn):
+            if isinstance(x, ast.Assign) and len(x.targets) == 1 and isinstance(x.targets[0], ast.Name):
+                local.setdefault(x.targets[0].id, []).append(x.value)
+
+        def is_value_mask(e, depth=0):
+            if depth > 3:
+                return None
+            if isinstance(e, ast.Name):
+                for v in local.get(e.id, []):
+                    r = is_value_mask(v, depth + 1)
+                    if r:
+                        return r
+                return None
+            if isinstance(e, ast.Compare) and any(isinstance(o, (ast.Gt, ast.GtE, ast.Lt, ast.LtE, ast.NotEq, ast.Eq)) for o in e.ops):
+                return norm_src(e)
+            if isinstance(e, ast.Call) and (dotted(e.func) or "").split(".")[-1] in ("nonzero", "flatnonzero", "isclose", "logical_not", "where", "argwhere"):
+                return norm_src(e)
+            if isinstance(e, ast.UnaryOp) and isinstance(e.op, ast.Invert):
+                return is_value_mask(e.operand, depth + 1)
+            return None
+        C = f"{COO}:CooMatrix.{fname}"
+        for a in appends:
+            n += 1
+            bad = None
+            for w in ast.walk(a.args[0]) if a.args else []:
+                if isinstance(w, ast.Subscript):
+                    m = is_value_mask(w.slice)
+                    if m:
+                        bad = (w, m)
+            if bad:
+                w, m = bad
+                rep.bad("C15.R9", C, a, f"`{norm_src(a)[:70]}` appends only the entries selected by the value-dependent mask `{m[:50]}`: entries the comparison does not order (nan) are "
+                        "dropped, so the conversions return a finite number where the sum of the written blocks is nan", f"{COO}:{a.lineno}")
+    if n < 3:
+        raise AnalysisError(f"{COO}: fewer than 3 appends found")
+    rep.ok("C15.R9", f"{COO}:CooMatrix", f"{n} appends inspected for value-dependent selection of the written entries")
 
 
 def run(ctx):
     rep = ctx.rep
+    rep.rule("C15.R9", "every entry of a written block is appended, whatever its value (no value-dependent mask between the block and the triplets)", 1)
+    r9_unfiltered(ctx)
     rep.rule("C15.R8", "the typed storage arrays grow through converting appends, or raw appends of buffers cast to the storage type", 1)
     r8_raw_appends(ctx)
     rep.rule("C15.R1", "data/row/col extended in lockstep on every path of __setitem__", 4)
@@ -152,6 +233,11 @@ def run(ctx):
     rep.rule("C15.R7", "every conversion hands the triplets to a duplicate-summing sparse constructor", 4)
     r7_conversions(ctx)
     cls = ctx.model.cls("CooMatrix", COO)
+    HELPERS.clear()
+    for mname, mfn in cls.methods.items():
+        if mname not in ("__setitem__", "extend") and any(isinstance(w, ast.Call) and isinstance(w.func, ast.Attribute) and w.func.attr in ("extend", "fromlist", "append", "frombytes")
+                                                           and dotted(w.func.value) == "self.data" for w in ast.walk(mfn)):
+            HELPERS[mname] = mfn
     fn = cls.methods.get("__setitem__")
     if fn is None:
         raise AnalysisError("CooMatrix.__setitem__ vanished")
@@ -271,7 +357,10 @@ def run(ctx):
             call = _ext(node, which)
             if call is None:
                 continue
-            arg = call.args[0]
+            arg = _bound_arg(call, which)
+            if arg is None:
+                rep.note(f"C15.R4: {norm_src(node.ast)[:60]}: argument appended to self.{which} not resolvable through the helper")
+                continue
             names = {x.id for x in ast.walk(arg) if isinstance(x, ast.Name)}
             if isinstance(arg, ast.Subscript):
                 # rows[X.row] / cols[X.col]
@@ -368,8 +457,13 @@ def _dense_order(cfg, node):
     if blk is None:
         return None
     for s in blk:
+        darg = None
         if isinstance(s, ast.Expr) and isinstance(s.value, ast.Call) and dotted(s.value.func) in ("self.data.extend",):
-            for c in ast.walk(s.value.args[0]):
+            darg = s.value.args[0]
+        elif isinstance(s, ast.Expr) and isinstance(s.value, ast.Call) and isinstance(s.value.func, ast.Attribute) and dotted(s.value.func.value) == "self" and s.value.func.attr in HELPERS:
+            darg = _bound_arg(s.value, "data")
+        if darg is not None:
+            for c in ast.walk(darg):
                 if isinstance(c, ast.Call) and isinstance(c.func, ast.Attribute) and c.func.attr in ("ravel", "flatten"):
                     for k in c.keywords:
                         if k.arg == "order" and isinstance(k.value, ast.Constant):
@@ -424,4 +518,16 @@ MUTANTS += [
 NEUTRAL += [
     dict(id="c15-n-r8", canary=True, what="sparse branch appends the value buffer with frombytes after a cast to float64", file=COO,
          old="                self.data.extend(coo.data)\n", new="                self.data.frombytes(coo.data.astype(float).tobytes())\n"),
+]
+MUTANTS += [
+    dict(id="c15-r9-seed", canary=True, what="[seeded by sub-agent] dense branch stores only the entries with abs(value) > 0 (nan is dropped)", file=COO,
+         old="                self.data.extend(value.ravel(order=\"C\"))\n                self.row.extend(repeat(rows, len(cols)))\n                self.col.extend(tile(cols, len(rows)))\n",
+         new="                data_ = value.ravel(order=\"C\")\n                nonzero = abs(data_) > 0.0\n                self.data.extend(data_[nonzero])\n                self.row.extend(repeat(rows, len(cols))[nonzero])\n                self.col.extend(tile(cols, len(rows))[nonzero])\n",
+         expect="C15.R9"),
+]
+NEUTRAL += [
+    dict(id="c15-n-helper", canary=True, what="the three appends of the dense branch factored into a helper method (no filtering)", file=COO,
+         edits=[(COO, "                self.data.extend(value.ravel(order=\"C\"))\n                self.row.extend(repeat(rows, len(cols)))\n                self.col.extend(tile(cols, len(rows)))\n",
+                 "                self._append(value.ravel(order=\"C\"), repeat(rows, len(cols)), tile(cols, len(rows)))\n"),
+                (COO, "    def extend(self, matrix, DOF):", "    def _append(self, data, row, col):\n        self.data.extend(data)\n        self.row.extend(row)\n        self.col.extend(col)\n\n    def extend(self, matrix, DOF):")]),
 ]
